@@ -16,16 +16,16 @@
 #include TABLE
 #endif
 
-double in_e[N];
+fsv_f64 in_e[N];
 uint8_t in_mask[N];
-double in_spacing[1];
+fsv_f64 in_spacing[1];
 
 void fsv_harness(void)
 {
   uint64_t bl[N + 1]; uint64_t nbl = 0;
   uint64_t rec[N], rcount[N], dcount[N], donors[N * (D + 1)];
-  double rdist[N], rweight[N];
-  uint64_t cnt[N], nb[N * D]; double dist[N * D];
+  fsv_f64 rdist[N], rweight[N];
+  uint64_t cnt[N], nb[N * D]; fsv_f64 dist[N * D];
   FSV_IN_F64(in_e, N);
   for (int i = 0; i < N; i++) FSV_ASSUME(FSV_ISFINITE(in_e[i]));
 #if USE_MASK == 2
@@ -68,10 +68,10 @@ void fsv_harness(void)
 
   /* slopes in the library's own expression; their sign is tied to the elevation order by the arithmetic lemma
      harness/lemma_slope.c (proved for ALL finite a, b and finite d > 0 by its own query in the same run) */
-  double sl[N * D];
+  fsv_f64 sl[N * D];
   for (int i = 0; i < N; i++) for (int k = 0; k < (int)cnt[i]; k++) {
-    double a = in_e[i], b = in_e[nb[i * D + k]];
-    double s = (a - b) / dist[i * D + k];
+    fsv_f64 a = in_e[i], b = in_e[nb[i * D + k]];
+    fsv_f64 s = (a - b) / dist[i * D + k];
     FSV_ASSUME(!(a <= b && s > 0.0) && !(a > b && s < 0.0));
     sl[i * D + k] = s;
   }
@@ -85,12 +85,12 @@ void fsv_harness(void)
       FSV_ASSERT(rdist[i] == 0.0, "self receiver distance zero");
       continue;
     }
-    int lower = 0; double best = 0.0;
+    int lower = 0; fsv_f64 best = 0.0;
     for (int k = 0; k < (int)cnt[i]; k++) {
       uint64_t j = nb[i * D + k];
       if (in_mask[j]) continue;
       if (in_e[j] < in_e[i]) {
-        double s = sl[i * D + k];
+        fsv_f64 s = sl[i * D + k];
         if (!lower || s > best) best = s;
         lower = 1;
       }
@@ -105,7 +105,7 @@ void fsv_harness(void)
       for (int k = 0; k < (int)cnt[i]; k++) {
         uint64_t j = nb[i * D + k];
         if (j == rec[i] && !in_mask[j] && rdist[i] == dist[i * D + k]) {
-          double s = sl[i * D + k];
+          fsv_f64 s = sl[i * D + k];
           if (s >= best) found = 1;
         }
       }
